@@ -218,38 +218,34 @@ Qed.
 
 (* ================================================================== the per-object filter loop *)
 
-(* filters the property speaks about: one of the 13 kinds, mask within the defined bits *)
-Definition supported (f : afilter) : bool :=
+(* a usage-mask filter asks only for bits enums.CryptographicUsageMask defines (undefined bits are dropped
+   by get_enumerations_from_bit_mask before the comparison); every other filter is unconstrained *)
+Definition mask_ok (f : afilter) : bool :=
   match f with
-  | FOther _ => false
   | FMask m => Z.land m known_mask =? m
   | _ => true
   end.
 
-(* the Python attribute the branch reads exists on the object's class *)
+(* the Python attribute the branch reads exists on the object's class (algorithm and length are read
+   with getattr(..., None) and are always readable) *)
 Definition readable (f : afilter) (o : obj) : bool :=
   match f with
   | FState _ | FMask _ => has_crypto_fields o
-  | FAlg _ | FLen _ => has_key_fields o
   | FCertType _ => has_cert_fields o
   | _ => true
   end.
 
-Record wf_obj (o : obj) : Prop := {
-  wf_idate : o_idate o <> 0;                                         (* the clock is past the epoch *)
-  wf_alg : has_key_fields o = true -> o_alg o <> None;                (* kmip.pie key constructors demand both *)
-  wf_len : has_key_fields o = true -> o_len o <> None;
-  wf_policy : o_policy o <> None                                      (* set at creation (default: 'default') *)
-}.
+(* the server clock is past the epoch: `if initial_date.get("value")` treats 0 as absent *)
+Definition wf_obj (o : obj) : Prop := o_idate o <> 0.
 
 (* The loop never reads an attribute the object's class lacks: every filter the loop REACHES for this
-   object (all earlier filters matched) is, when applicable, readable.  Executable, so that the side
-   condition of the refinement theorem can be decided for a concrete store and request. *)
+   object (all earlier filters matched) is, when applicable, readable.  Executable.  With today's rule
+   table this holds for every object of the seven stored types (crash_free_stored below). *)
 Fixpoint reach_ok (o : obj) (fs : list afilter) : bool :=
   match fs with
   | [] => true
   | f :: fs' =>
-      (match applicable f (o_type o) with Some true => readable f o | _ => true end) &&
+      (if applicable f (o_type o) then readable f o else true) &&
       (if matches o f then reach_ok o fs' else true)
   end.
 
@@ -257,17 +253,7 @@ Definition crash_free (objs : list obj) (fs : list afilter) : Prop :=
   forallb (fun o => reach_ok o fs) objs = true.
 
 Definition wf_filters (fs : list afilter) : Prop :=
-  forallb supported fs = true /\ (List.length (filter_dates fs) <= 2)%nat.
-
-(* every supported filter names an attribute of the generated rule table *)
-Lemma supported_has_rule : forall f, supported f = true -> exists r, find_rule (filter_name f) = Some r.
-Proof. intros f H; destruct f; simpl in H; try discriminate; vm_compute; eexists; reflexivity. Qed.
-
-Lemma supported_applicable : forall f t, supported f = true -> exists b, applicable f t = Some b.
-Proof.
-  intros f t H. destruct (supported_has_rule f H) as [r Hr].
-  unfold applicable. rewrite Hr. eexists; reflexivity.
-Qed.
+  forallb mask_ok fs = true /\ (List.length (filter_dates fs) <= 2)%nat.
 
 (* what the `initial_date` dictionary holds after the date filters `ds` were seen *)
 Definition ds_of (o : obj) (ds : list Z) : dst :=
@@ -287,39 +273,40 @@ Proof.
     + rewrite Z.min_r, Z.max_l by lia. reflexivity.
 Qed.
 
-(* one step of the loop on a non-date supported filter agrees with `matches` *)
-Lemma step_matches : forall o f, wf_obj o -> supported f = true ->
-  applicable f (o_type o) = Some true -> readable f o = true ->
+(* one step of the loop on a non-date filter agrees with `matches`: in particular an object that has no
+   value for the attribute (NULL column, class without the field, attribute the server does not keep)
+   does not match *)
+Lemma step_matches : forall o f, mask_ok f = true ->
+  applicable f (o_type o) = true -> readable f o = true ->
   match f with FDate _ => True | _ => fetch_compare o f = cmp (matches o f) end.
 Proof.
-  intros o f W S A R. unfold matches. rewrite A.
-  destruct f; simpl in *; try rewrite R; try reflexivity; try discriminate.
+  intros o f S A R. unfold matches. rewrite A. rewrite andb_true_l.
+  destruct f; simpl in *; try rewrite R; try reflexivity.
   - rewrite Z.eqb_sym. reflexivity.
   - rewrite Z.eqb_sym. reflexivity.
-  - destruct (o_alg o) eqn:E; [rewrite Z.eqb_sym; reflexivity | exfalso; exact (wf_alg o W R E)].
-  - destruct (o_len o) eqn:E; [rewrite Z.eqb_sym; reflexivity | exfalso; exact (wf_len o W R E)].
+  - destruct (has_key_fields o); [|reflexivity]. destruct (o_alg o); [rewrite Z.eqb_sym|]; reflexivity.
+  - destruct (has_key_fields o); [|reflexivity]. destruct (o_len o); [rewrite Z.eqb_sym|]; reflexivity.
   - apply Z.eqb_eq in S. rewrite S. reflexivity.
-  - destruct (o_policy o) eqn:E; [rewrite String.eqb_sym; reflexivity | exfalso; exact (wf_policy o W E)].
+  - destruct (o_policy o); [rewrite String.eqb_sym|]; reflexivity.
   - rewrite Z.eqb_sym. reflexivity.
   - rewrite String.eqb_sym. reflexivity.
   - destruct b, (o_sensitive o); reflexivity.
 Qed.
 
-Lemma obj_loop_spec : forall o, wf_obj o -> forall fs pre,
-  forallb supported fs = true ->
+Lemma obj_loop_spec : forall o fs pre,
+  forallb mask_ok fs = true ->
   reach_ok o fs = true ->
   (List.length pre + List.length (filter_dates fs) <= 2)%nat ->
   exists ds', obj_loop o fs (ds_of o pre) = Ok (forallb (matches o) fs, ds') /\
               (forallb (matches o) fs = true -> ds' = ds_of o (pre ++ filter_dates fs)).
 Proof.
-  intros o W. induction fs as [|f fs IH]; intros pre S R L.
+  intros o. induction fs as [|f fs IH]; intros pre S R L.
   - simpl. eexists; split; [reflexivity|]. intros _. rewrite app_nil_r. reflexivity.
   - simpl in S. apply andb_true_iff in S. destruct S as [Sf Sfs].
     simpl in R. apply andb_true_iff in R. destruct R as [R1 R2].
-    destruct (supported_applicable f (o_type o) Sf) as [b Hb].
-    simpl obj_loop. rewrite Hb in *. destruct b.
+    simpl obj_loop. destruct (applicable f (o_type o)) eqn:Hb.
     + rename R1 into Rf.
-      pose proof (step_matches o f W Sf Hb Rf) as SM.
+      pose proof (step_matches o f Sf Hb Rf) as SM.
       destruct f; try (rewrite SM; simpl forallb;
         match goal with |- context [cmp (matches o ?g)] => destruct (matches o g) eqn:M end; simpl;
         [ simpl in L; destruct (IH pre Sfs R2 L) as [ds' [E1 E2]]; exists ds'; split; [exact E1 | exact E2]
@@ -348,10 +335,10 @@ Lemma obj_selected_spec : forall o fs, wf_obj o -> wf_filters fs ->
 Proof.
   intros o fs W [S L] R. unfold obj_selected, sel.
   change dst0 with (ds_of o []).
-  destruct (obj_loop_spec o W fs [] S R) as [ds' [E1 E2]]; [simpl; lia|].
+  destruct (obj_loop_spec o fs [] S R) as [ds' [E1 E2]]; [simpl; lia|].
   rewrite E1. destruct (forallb (matches o) fs) eqn:M.
   - rewrite (E2 eq_refl). simpl app.
-    pose proof (wf_idate o W) as Hd.
+    unfold wf_obj in W.
     destruct (filter_dates fs) as [|d1 [|d2 [|d3 ds]]]; simpl in L |- *; try lia.
     + reflexivity.
     + destruct (o_idate o =? 0) eqn:E0; [lia|]. simpl. rewrite Z.eqb_sym. reflexivity.
@@ -385,7 +372,7 @@ Qed.
 
 Lemma locate_objs_alt : forall allowed objs fs,
   locate_objs allowed objs fs =
-  match filter_objs (filter allowed objs) fs with Ok l => Ok (sort_desc l) | TooMany => TooMany | Crash => Crash end.
+  match filter_objs (filter allowed objs) fs with Ok l => Ok (sort_desc l) | Refused => Refused | TooMany => TooMany | Crash => Crash end.
 Proof.
   intros. unfold locate_objs. destruct fs; [rewrite filter_objs_nil|]; reflexivity.
 Qed.
@@ -395,10 +382,52 @@ Proof. intros. unfold selected, sel. rewrite andb_assoc. reflexivity. Qed.
 
 (* ================================================================== refinement *)
 
-Definition side_conditions (allowed : obj -> bool) (objs : list obj) (fs : list afilter) : Prop :=
+Definition stored_type (o : obj) : Prop := In (o_type o) [1; 2; 3; 4; 5; 7; 8].
+
+(* from the generated rule table: whatever is applicable to a stored type is readable on its class *)
+Lemma readable_by_table : forall f o, stored_type o -> applicable f (o_type o) = true -> readable f o = true.
+Proof.
+  intros f o T A. unfold stored_type in T. unfold readable, has_crypto_fields, has_key_fields, has_cert_fields.
+  simpl in T.
+  destruct T as [T|[T|[T|[T|[T|[T|[T|[]]]]]]]]; rewrite <- T in *;
+    destruct f; try reflexivity; vm_compute in A; try discriminate; reflexivity.
+Qed.
+
+Lemma reach_ok_of_all : forall o fs,
+  (forall f, In f fs -> applicable f (o_type o) = true -> readable f o = true) -> reach_ok o fs = true.
+Proof.
+  intros o. induction fs as [|f fs IH]; intros H; simpl; [reflexivity|].
+  apply andb_true_iff. split.
+  - destruct (applicable f (o_type o)) eqn:A; try reflexivity. apply H; [left; reflexivity | exact A].
+  - destruct (matches o f); [|reflexivity]. apply IH. intros g Hg. apply H. right; exact Hg.
+Qed.
+
+Lemma crash_free_stored : forall objs fs, Forall stored_type objs -> crash_free objs fs.
+Proof.
+  intros objs fs T. unfold crash_free. apply forallb_forall. intros o Ho.
+  apply reach_ok_of_all. intros f Hf A. apply readable_by_table; auto.
+  eapply Forall_forall in T; eassumption.
+Qed.
+
+(* general form: crash freedom as a hypothesis (independent of the rule table) *)
+Definition side_conditions_general (allowed : obj -> bool) (objs : list obj) (fs : list afilter) : Prop :=
   Forall wf_obj (filter allowed objs) /\ wf_filters fs /\ crash_free (filter allowed objs) fs.
 
-Lemma locate_objs_refines : forall allowed objs fs, side_conditions allowed objs fs ->
+(* the form used by the property theorems: the visible objects are of the seven stored types and were
+   created after the epoch; mask filters stay within the defined bits; at most two date filters *)
+Definition side_conditions (allowed : obj -> bool) (objs : list obj) (fs : list afilter) : Prop :=
+  Forall (fun o => wf_obj o /\ stored_type o) (filter allowed objs) /\ wf_filters fs.
+
+Lemma side_conditions_general_of : forall allowed objs fs,
+  side_conditions allowed objs fs -> side_conditions_general allowed objs fs.
+Proof.
+  intros allowed objs fs [W F]. split; [|split].
+  - eapply Forall_impl; [|exact W]. simpl. tauto.
+  - exact F.
+  - apply crash_free_stored. eapply Forall_impl; [|exact W]. simpl. tauto.
+Qed.
+
+Lemma locate_objs_refines_general : forall allowed objs fs, side_conditions_general allowed objs fs ->
   locate_objs allowed objs fs = Ok (spec_objs allowed objs fs).
 Proof.
   intros allowed objs fs (W & F & C). rewrite locate_objs_alt.
@@ -406,12 +435,64 @@ Proof.
   rewrite filter_filter. f_equal. f_equal. apply filter_ext. intros o. symmetry. apply selected_split.
 Qed.
 
-Lemma locate_refines_spec_lemma : forall allowed objs fs off mx,
-  side_conditions allowed objs fs -> nonneg off -> nonneg mx ->
+Lemma locate_objs_refines : forall allowed objs fs, side_conditions allowed objs fs ->
+  locate_objs allowed objs fs = Ok (spec_objs allowed objs fs).
+Proof. intros. apply locate_objs_refines_general, side_conditions_general_of. assumption. Qed.
+
+Lemma locate_model_refines_general : forall allowed objs fs off mx,
+  side_conditions_general allowed objs fs -> nonneg off -> nonneg mx ->
   locate_model allowed objs fs off mx = Ok (locate_spec allowed objs fs off mx).
 Proof.
   intros allowed objs fs off mx SC Ho Hm. unfold locate_model, locate_spec.
-  rewrite (locate_objs_refines _ _ _ SC). rewrite page_slice by assumption. reflexivity.
+  rewrite (locate_objs_refines_general _ _ _ SC). rewrite page_slice by assumption. reflexivity.
+Qed.
+
+Lemma locate_refines_spec_lemma : forall ver allowed objs fs off mx,
+  gate_ok ver fs = true -> side_conditions allowed objs fs -> nonneg off -> nonneg mx ->
+  locate_request ver allowed objs fs off mx = Ok (locate_spec allowed objs fs off mx).
+Proof.
+  intros ver allowed objs fs off mx G SC Ho Hm. unfold locate_request. rewrite G.
+  apply locate_model_refines_general; auto. apply side_conditions_general_of. exact SC.
+Qed.
+
+(* the version gate: refusal exactly when some filter attribute is not supported under the version *)
+Lemma obj_loop_not_refused : forall o fs ds, obj_loop o fs ds <> Refused.
+Proof.
+  intros o. induction fs as [|f fs IH]; intros ds; simpl; [discriminate|].
+  destruct (applicable f (o_type o)); [|discriminate].
+  destruct (fetch_compare o f) as [| | |v d]; try discriminate; [apply IH|].
+  destruct (track ds v d); [apply IH | discriminate].
+Qed.
+
+Lemma filter_objs_not_refused : forall fs os, filter_objs os fs <> Refused.
+Proof.
+  intros fs. induction os as [|o os IH]; simpl; [discriminate|].
+  unfold obj_selected. pose proof (obj_loop_not_refused o fs dst0) as NR.
+  destruct (obj_loop o fs dst0) as [[? ?]| | |]; try discriminate; [|congruence].
+  destruct (filter_objs os fs); try discriminate. congruence.
+Qed.
+
+Lemma locate_model_not_refused : forall allowed objs fs off mx, locate_model allowed objs fs off mx <> Refused.
+Proof.
+  intros. unfold locate_model. rewrite locate_objs_alt.
+  pose proof (filter_objs_not_refused fs (filter allowed objs)) as NR.
+  destruct (filter_objs (filter allowed objs) fs); try discriminate. congruence.
+Qed.
+
+Lemma locate_refused_lemma : forall ver allowed objs fs off mx,
+  locate_request ver allowed objs fs off mx = Refused <-> gate_ok ver fs = false.
+Proof.
+  intros. unfold locate_request. destruct (gate_ok ver fs) eqn:G.
+  - split; [|discriminate]. intros H. exfalso. exact (locate_model_not_refused _ _ _ _ _ H).
+  - split; reflexivity.
+Qed.
+
+Lemma locate_request_ok : forall ver allowed objs fs off mx ids,
+  locate_request ver allowed objs fs off mx = Ok ids ->
+  gate_ok ver fs = true /\ locate_model allowed objs fs off mx = Ok ids.
+Proof.
+  intros ver allowed objs fs off mx ids H. unfold locate_request in H.
+  destruct (gate_ok ver fs); [split; [reflexivity | exact H] | discriminate].
 Qed.
 
 (* ---- sortedness and permutation of the unsliced answer *)
@@ -515,7 +596,7 @@ Lemma obj_loop_toomany : forall o fs ds,
   obj_loop o fs ds = TooMany -> (seen ds + List.length (filter_dates fs) > 2)%nat.
 Proof.
   intros o. induction fs as [|f fs IH]; intros ds H; simpl in H; [discriminate|].
-  destruct (applicable f (o_type o)) as [[|]|]; try discriminate.
+  destruct (applicable f (o_type o)); try discriminate.
   destruct (fetch_compare o f) eqn:FC; try discriminate.
   - apply IH in H. rewrite filter_dates_cons, app_length. lia.
   - apply fc_date_inv in FC. subst f. rewrite filter_dates_cons. simpl app. simpl List.length.
@@ -531,49 +612,10 @@ Proof.
   intros fs. induction os as [|o os IH]; simpl; intros H; [discriminate|].
   destruct (obj_selected o fs) eqn:E.
   - destruct (filter_objs os fs); try discriminate. apply IH; reflexivity.
-  - unfold obj_selected in E. destruct (obj_loop o fs dst0) as [[? ?]| |] eqn:L; try discriminate.
+  - discriminate.
+  - unfold obj_selected in E. destruct (obj_loop o fs dst0) as [[? ?]| | |] eqn:L; try discriminate.
     apply obj_loop_toomany in L. unfold seen in L. simpl in L. exact L.
   - discriminate.
-Qed.
-
-(* ---- crash freedom from syntactic conditions on the request and the store *)
-Definition stored_type (o : obj) : Prop := In (o_type o) [1; 2; 3; 4; 5; 7; 8].
-Definition is_alg_or_len (f : afilter) : bool := match f with FAlg _ | FLen _ => true | _ => false end.
-
-Lemma readable_by_table : forall f o, stored_type o -> supported f = true ->
-  (is_alg_or_len f = false \/ o_type o <> 1) ->
-  applicable f (o_type o) = Some true -> readable f o = true.
-Proof.
-  intros f o T S H A. unfold stored_type in T. unfold readable, has_crypto_fields, has_key_fields, has_cert_fields.
-  simpl in T.
-  destruct T as [T|[T|[T|[T|[T|[T|[T|[]]]]]]]]; rewrite <- T in *;
-    destruct f; simpl in S, H; try discriminate; try reflexivity;
-    try (destruct H as [H|H]; [discriminate | congruence]);
-    vm_compute in A; try discriminate; reflexivity.
-Qed.
-
-Lemma reach_ok_of_all : forall o fs,
-  (forall f, In f fs -> applicable f (o_type o) = Some true -> readable f o = true) -> reach_ok o fs = true.
-Proof.
-  intros o. induction fs as [|f fs IH]; intros H; simpl; [reflexivity|].
-  apply andb_true_iff. split.
-  - destruct (applicable f (o_type o)) as [[|]|] eqn:A; try reflexivity. apply H; [left; reflexivity | exact A].
-  - destruct (matches o f); [|reflexivity]. apply IH. intros g Hg. apply H. right; exact Hg.
-Qed.
-
-Lemma crash_free_sufficient : forall objs fs,
-  Forall stored_type objs -> forallb supported fs = true ->
-  (forallb (fun f => negb (is_alg_or_len f)) fs = true \/ Forall (fun o => o_type o <> 1) objs) ->
-  crash_free objs fs.
-Proof.
-  intros objs fs T S H. unfold crash_free. apply forallb_forall. intros o Ho.
-  apply reach_ok_of_all. intros f Hf A.
-  apply readable_by_table; auto.
-  - eapply Forall_forall in T; eassumption.
-  - eapply forallb_forall in S; eassumption.
-  - destruct H as [H|H].
-    + left. eapply forallb_forall in H; [|eassumption]. destruct (is_alg_or_len f); [discriminate | reflexivity].
-    + right. eapply Forall_forall in H; eassumption.
 Qed.
 
 (* ---- when the model crashes: some visible object reaches an applicable filter whose attribute its class lacks
@@ -588,27 +630,26 @@ Proof.
 Qed.
 
 Lemma obj_loop_crash : forall o fs ds, obj_loop o fs ds = Crash ->
-  exists f, In f fs /\ (applicable f (o_type o) = None \/ (applicable f (o_type o) = Some true /\ readable f o = false)).
+  exists f, In f fs /\ applicable f (o_type o) = true /\ readable f o = false.
 Proof.
   intros o. induction fs as [|f fs IH]; intros ds H; simpl in H; [discriminate|].
-  destruct (applicable f (o_type o)) as [[|]|] eqn:A; try discriminate.
-  - destruct (fetch_compare o f) eqn:FC; try discriminate.
-    + destruct (IH _ H) as [g [Hg P]]. exists g. split; [right; exact Hg | exact P].
-    + exists f. split; [left; reflexivity|]. right. split; [exact A | apply fc_crash_unreadable; exact FC].
-    + destruct (track ds v d); [|discriminate]. destruct (IH _ H) as [g [Hg P]]. exists g. split; [right; exact Hg | exact P].
-  - exists f. split; [left; reflexivity | left; exact A].
+  destruct (applicable f (o_type o)) eqn:A; try discriminate.
+  destruct (fetch_compare o f) eqn:FC; try discriminate.
+  - destruct (IH _ H) as [g [Hg P]]. exists g. split; [right; exact Hg | exact P].
+  - exists f. split; [left; reflexivity|]. split; [exact A | apply fc_crash_unreadable; exact FC].
+  - destruct (track ds v d); [|discriminate]. destruct (IH _ H) as [g [Hg P]]. exists g. split; [right; exact Hg | exact P].
 Qed.
 
 Lemma filter_objs_crash : forall fs os, filter_objs os fs = Crash ->
-  exists o f, In o os /\ In f fs /\
-    (applicable f (o_type o) = None \/ (applicable f (o_type o) = Some true /\ readable f o = false)).
+  exists o f, In o os /\ In f fs /\ applicable f (o_type o) = true /\ readable f o = false.
 Proof.
   intros fs. induction os as [|o os IH]; simpl; intros H; [discriminate|].
   destruct (obj_selected o fs) eqn:E.
   - destruct (filter_objs os fs); try discriminate.
     destruct (IH eq_refl) as [o' [f [Ho [Hf P]]]]. exists o', f. split; [right; exact Ho | split; assumption].
   - discriminate.
-  - unfold obj_selected in E. destruct (obj_loop o fs dst0) as [[? ?]| |] eqn:L; try discriminate.
+  - discriminate.
+  - unfold obj_selected in E. destruct (obj_loop o fs dst0) as [[? ?]| | |] eqn:L; try discriminate.
     destruct (obj_loop_crash _ _ _ L) as [f [Hf P]]. exists o, f. split; [left; reflexivity | split; assumption].
 Qed.
 
@@ -619,8 +660,8 @@ Lemma filter_objs_ok_filter : forall fs os l, filter_objs os fs = Ok l ->
 Proof.
   intros fs. induction os as [|o os IH]; simpl; intros l H.
   - inversion H; reflexivity.
-  - destruct (obj_selected o fs) as [b| |]; try discriminate.
-    destruct (filter_objs os fs) as [l0| |]; try discriminate.
+  - destruct (obj_selected o fs) as [b| | |]; try discriminate.
+    destruct (filter_objs os fs) as [l0| | |]; try discriminate.
     inversion H; subst. rewrite (IH l0 eq_refl). destruct b; reflexivity.
 Qed.
 
@@ -628,7 +669,7 @@ Lemma locate_objs_ok_shape : forall allowed objs fs l, locate_objs allowed objs 
   exists p, l = sort_desc (filter p (filter allowed objs)).
 Proof.
   intros allowed objs fs l H. rewrite locate_objs_alt in H.
-  destruct (filter_objs (filter allowed objs) fs) as [l0| |] eqn:E; try discriminate.
+  destruct (filter_objs (filter allowed objs) fs) as [l0| | |] eqn:E; try discriminate.
   inversion H; subst. eexists. rewrite (filter_objs_ok_filter _ _ _ E) at 1. reflexivity.
 Qed.
 
@@ -651,7 +692,7 @@ Lemma locate_sorted_lemma : forall allowed objs fs off mx ids,
             (forall o, In o l -> In o objs /\ allowed o = true).
 Proof.
   intros allowed objs fs off mx ids H. unfold locate_model in H.
-  destruct (locate_objs allowed objs fs) as [l| |] eqn:E; try discriminate.
+  destruct (locate_objs allowed objs fs) as [l| | |] eqn:E; try discriminate.
   inversion H; subst. exists (page l off mx). split; [reflexivity|].
   destruct (locate_objs_ok_shape _ _ _ _ E) as [p Hp]. split.
   - apply page_sorted. rewrite Hp. apply sort_desc_strongly_sorted.
@@ -704,7 +745,7 @@ Lemma pages_partition_lemma : forall allowed objs fs (n m : nat) full,
     (NoDup (map o_uid objs) -> forall i j x, i <> j -> In x (pages i) -> ~ In x (pages j)).
 Proof.
   intros allowed objs fs n m full Hn H Hm. unfold locate_model in *.
-  destruct (locate_objs allowed objs fs) as [l| |] eqn:E; try discriminate.
+  destruct (locate_objs allowed objs fs) as [l| | |] eqn:E; try discriminate.
   simpl in H. inversion H; subst full. clear H.
   exists (fun k => nth_page n (map o_uid l) k). split; [|split].
   - intros k. rewrite page_slice by (simpl; lia). rewrite slice_nth_page, map_nth_page. reflexivity.
@@ -761,17 +802,41 @@ Proof.
 Qed.
 
 (* when the model fails *)
-Lemma locate_failure_lemma : forall allowed objs fs off mx,
+Lemma locate_model_failure : forall allowed objs fs off mx,
   (locate_model allowed objs fs off mx = TooMany -> (List.length (filter_dates fs) > 2)%nat) /\
   (locate_model allowed objs fs off mx = Crash ->
      exists o f, In o objs /\ allowed o = true /\ In f fs /\
-       (applicable f (o_type o) = None \/ (applicable f (o_type o) = Some true /\ readable f o = false))).
+       applicable f (o_type o) = true /\ readable f o = false).
 Proof.
   intros allowed objs fs off mx. unfold locate_model. rewrite locate_objs_alt.
-  destruct (filter_objs (filter allowed objs) fs) as [l| |] eqn:E; split; intros H; try discriminate.
+  destruct (filter_objs (filter allowed objs) fs) as [l| | |] eqn:E; split; intros H; try discriminate.
   - eapply filter_objs_toomany; eassumption.
   - destruct (filter_objs_crash _ _ E) as [o [f [Ho [Hf P]]]]. apply filter_In in Ho.
     exists o, f. tauto.
+Qed.
+
+Lemma locate_failure_lemma : forall ver allowed objs fs off mx,
+  (locate_request ver allowed objs fs off mx = Refused <-> gate_ok ver fs = false) /\
+  (locate_request ver allowed objs fs off mx = TooMany -> (List.length (filter_dates fs) > 2)%nat) /\
+  (locate_request ver allowed objs fs off mx = Crash ->
+     exists o f, In o objs /\ allowed o = true /\ In f fs /\
+       applicable f (o_type o) = true /\ readable f o = false /\ ~ stored_type o).
+Proof.
+  intros ver allowed objs fs off mx. split; [apply locate_refused_lemma|].
+  unfold locate_request. destruct (gate_ok ver fs); [|split; discriminate].
+  destruct (locate_model_failure allowed objs fs off mx) as [T C]. split; [exact T|].
+  intros H. destruct (C H) as [o [f [Ho [Ha [Hf [A R]]]]]]. exists o, f. repeat split; auto.
+  intros St. rewrite (readable_by_table f o St A) in R. discriminate.
+Qed.
+
+(* with today's rule table a store of the seven stored types never makes Locate crash *)
+Lemma locate_never_crashes_lemma : forall ver allowed objs fs off mx,
+  Forall stored_type (filter allowed objs) -> locate_request ver allowed objs fs off mx <> Crash.
+Proof.
+  intros ver allowed objs fs off mx T H.
+  destruct (locate_failure_lemma ver allowed objs fs off mx) as [_ [_ C]].
+  destruct (C H) as [o [f [Ho [Ha [_ [_ [_ N]]]]]]]. apply N.
+  eapply Forall_forall in T; [exact T|]. apply filter_In. split; assumption.
 Qed.
 
 (* stability of the order among equal initial dates *)
@@ -844,6 +909,51 @@ Lemma locate_slice_lemma : forall allowed objs fs off mx full,
   locate_model allowed objs fs off mx = Ok (slice off mx full).
 Proof.
   intros allowed objs fs off mx full Ho Hm H. unfold locate_model in *.
-  destruct (locate_objs allowed objs fs) as [l| |]; try discriminate.
+  destruct (locate_objs allowed objs fs) as [l| | |]; try discriminate.
   simpl in H. inversion H; subst. rewrite page_slice by assumption. rewrite map_slice. reflexivity.
+Qed.
+
+
+(* ================================================================== the same statements for the whole operation *)
+
+Lemma locate_request_sorted_lemma : forall ver allowed objs fs off mx ids,
+  locate_request ver allowed objs fs off mx = Ok ids ->
+  exists l, ids = map o_uid l /\ StronglySorted desc l /\
+            (forall o, In o l -> In o objs /\ allowed o = true).
+Proof.
+  intros ver allowed objs fs off mx ids H. apply locate_request_ok in H. destruct H as [_ H].
+  eapply locate_sorted_lemma; eassumption.
+Qed.
+
+Lemma locate_request_perm_lemma : forall ver allowed objs fs,
+  gate_ok ver fs = true -> side_conditions allowed objs fs ->
+  exists l, locate_objs allowed objs fs = Ok l /\
+            locate_request ver allowed objs fs None None = Ok (map o_uid l) /\
+            Permutation l (filter (selected allowed fs) objs).
+Proof.
+  intros ver allowed objs fs G SC. destruct (locate_perm_lemma _ _ _ SC) as [l [E [M P]]].
+  exists l. split; [exact E|]. split; [|exact P]. unfold locate_request. rewrite G. exact M.
+Qed.
+
+Lemma locate_request_slice_lemma : forall ver allowed objs fs off mx full,
+  nonneg off -> nonneg mx ->
+  locate_request ver allowed objs fs None None = Ok full ->
+  locate_request ver allowed objs fs off mx = Ok (slice off mx full).
+Proof.
+  intros ver allowed objs fs off mx full Ho Hm H. apply locate_request_ok in H. destruct H as [G H].
+  unfold locate_request. rewrite G. apply locate_slice_lemma; assumption.
+Qed.
+
+Lemma locate_request_pages_lemma : forall ver allowed objs fs (n m : nat) full,
+  (0 < n)%nat ->
+  locate_request ver allowed objs fs None None = Ok full ->
+  (List.length full <= m * n)%nat ->
+  exists pages : nat -> list Z,
+    (forall k, locate_request ver allowed objs fs (Some (Z.of_nat k * Z.of_nat n)) (Some (Z.of_nat n)) = Ok (pages k)) /\
+    concat (map pages (seq 0 m)) = full /\
+    (NoDup (map o_uid objs) -> forall i j x, i <> j -> In x (pages i) -> ~ In x (pages j)).
+Proof.
+  intros ver allowed objs fs n m full Hn H Hm. apply locate_request_ok in H. destruct H as [G H].
+  destruct (pages_partition_lemma allowed objs fs n m full Hn H Hm) as [pages [P1 P2]].
+  exists pages. split; [|exact P2]. intros k. unfold locate_request. rewrite G. apply P1.
 Qed.
